@@ -20,7 +20,9 @@ E1 = [f"{CORE}::{n}" for n in (
     "_dot_csr_matvec_numba", "_l_diag_dot_dense_par", "_r_diag_dot_dense_par", "_outer_par", "_kron_dense_numba",
     "maybe_multithread", "complex_array", "phase_to_complex", "subtract_update_", "divide_update_", "par_dot_csr_matvec",
     "l_diag_dot_dense", "r_diag_dot_dense", "outer", "kron_dense")]
-PROVIDERS = []
+import contracts.c16_builder as _c16b  # noqa: E402
+
+PROVIDERS = [_c16b.provider]
 # run-time contracts (substring of the contract name) that exercise an E1 carrier: used to attach a concrete
 # failing input to a failed obligation
 BOUNDED_FOR = {
@@ -48,7 +50,13 @@ ASSUMPTIONS = [
     "pass-through of the thread options, that the output is freshly allocated (no aliasing with inputs) and returned; "
     "maybe_multithread: one direct call with the kernel defaults or exactly one submission per rank with the same "
     "(num_threads, target_block_size), all waited for. size_total only decides whether to thread and is not an "
-    "obligation. par_reduce, kron(parallel=True), operator builder workers and gen/rand: bounded stand-in only",
+    "obligation. par_reduce, kron(parallel=True) and gen/rand: bounded stand-in only",
+    "operator-builder workers (configcore kernels with world_rank/world_size, builder.build_coo_data / matvec): proved for "
+    "all extents and worker counts are the set obligations on the rank loop read from the source (cover / sound / "
+    "disjoint against the serial loop), that rank and size occur only in the loop header, pass-through in the "
+    "dispatchers, and that exactly ranks 0..world_size-1 are submitted; the loop body being the same function of the "
+    "configuration in every rank is a syntactic frame argument; the gather (COO concatenation, sum of per-rank vectors) "
+    "and integer div by the worker count via z3's nonlinear arithmetic are trusted / bounded",
 ]
 EXPLANATION = (
     "E1: VCs generated from the current source of 23 functions in quimb/core.py (partition arithmetic, 11 threaded "
